@@ -440,6 +440,17 @@ func (g G) planSSO(prop string) *Plan {
 		}
 	}
 	if prop == "C05" {
+		// an SP that registered a certificate for encryption only (or next to its signing certificate) signs with that key
+		for i := range p.Steps {
+			if m := p.Steps[i].Msg; m != nil && m.Kind == "sso" && m.SP >= 0 {
+				if c := &p.World.SPs[mod(m.SP, len(p.World.SPs))]; c.EncKey > 0 && c.EncKey != c.Key && g.chance(fmt.Sprintf("enckey%d", i), 35) {
+					m.Sign, m.SignKey = g.pick(fmt.Sprintf("enckey%d.alg", i), "rsa-sha256", "rsa-sha1"), c.EncKey
+					m.Style.KeyInfo = true
+				}
+			}
+		}
+	}
+	if prop == "C05" {
 		// replay: the untampered message is delivered (and answered) first, the tampered copy with the very same signature afterwards
 		var out []Step
 		for i := range p.Steps {
